@@ -237,6 +237,13 @@ func runWire(k *hcase, in string) (res result) {
 		}
 		res.tokens = append(res.tokens, fmt.Sprintf("Q:%s:%s:%s:%s:%s:%s:%s:%s:%s", m3, j(seqs), j(durs), j(hdrs), cs, cd, cst, B01(stable), files))
 	}
+	defer func() {
+		if r := recover(); r != nil {
+			res.panicked = true
+			res.goFinds = append(res.goFinds, Finding{Kind: "oracle", Class: "panic-outside-frame-path", Case: in,
+				Impl: fmt.Sprintf("panic in a client call or in Close: %v", r), Spec: "no panic"})
+		}
+	}()
 	stalled := false
 	for _, e := range k.evs {
 		switch e.kind {
